@@ -5,6 +5,8 @@
    state is the list of placements granted and not yet released. *)
 From Coq Require Import ZArith List Bool.
 From RP Require Import Sched.Model Sched.NodeMap Sched.Inv Sched.SchedProofs Sched.RunProofs.
+From Coq Require String.
+From RP Require AppSlots.Model AppSlots.Oracle AppSlots.NodeProofs AppSlots.InvProofs AppSlots.Proofs.
 Import ListNotations.
 Open Scope Z_scope.
 
@@ -74,3 +76,87 @@ Example C01_nonvacuous :
   | None => False
   end.
 Proof. vm_compute. auto. Qed.
+
+Module AppSide.
+Import Coq.Strings.String.
+Import RP.AppSlots.Model RP.AppSlots.Oracle RP.AppSlots.NodeProofs RP.AppSlots.InvProofs RP.AppSlots.Proofs.
+Open Scope string_scope.
+Open Scope Z_scope.
+
+(* Application side: `Pilot.nodelist` (resource_config.NodeList / Node), the helper with which an
+   application chooses the placements it supplies in TaskDescription.slots.  Model: RP.AppSlots.Model;
+   occupations in 1/64 of a core / GPU (BUSY = 64).
+
+   wf_nodes ns0     : the node list as Pilot.nodelist builds it from the agent's resource details --
+                      node ids are the list positions, lfs / mem are numbers >= 0, every core / GPU
+                      is DOWN or occupied between FREE and BUSY;
+   op_ok            : the calls are find_slots / release_slots / verify / Node.find_slot with
+                      non-negative sizes and occupations (find_slots: core occupation > 0);
+   all_disciplined  : release_slots is given slots the application holds (got from find_slots and
+                      not yet given back), counting repetitions;
+   run .. ops       : the answer and the node list after every call (any number of calls);
+   judge            : the clauses the check evaluates on the real objects' trace. *)
+
+(* After EVERY call of ANY sequence: no core / GPU occupation is above BUSY or below FREE, lfs / mem
+   of a node stay between 0 and what the node has, and the slots handed out and not yet released are
+   compatible: per core / GPU their occupations plus the initial occupation do not exceed BUSY, a
+   DOWN resource is in no slot, their lfs / mem sums fit the node *)
+Theorem C01_app_no_oversubscription :
+  forall (ns0 : list node) (verified : bool) (ops : list op),
+    wf_nodes ns0 -> Forall op_ok ops ->
+    all_disciplined [] ops (run (start_nl ns0 verified) ops) = true ->
+    v_nover (judge ns0 ns0 [] ops (run (start_nl ns0 verified) ops)) = true.
+Proof. exact app_no_oversubscription. Qed.
+Print Assumptions C01_app_no_oversubscription.
+
+(* the same, state by state: the relation "reached with the slots h outstanding" holds initially, is
+   kept by every call, and implies the clause *)
+Theorem C01_app_reached_start :
+  forall (ns0 : list node) (verified : bool), wf_nodes ns0 -> Reached ns0 (start_nl ns0 verified) [].
+Proof. exact reached_start. Qed.
+Print Assumptions C01_app_reached_start.
+
+Theorem C01_app_reached_step :
+  forall (ns0 : list node) (nl : nlist) (h : list slot) (o : op) (nl' : nlist) (res : res),
+    Reached ns0 nl h -> op_ok o -> op_disciplined h o = true -> step nl o = (nl', res) ->
+    Reached ns0 nl' (held_after h o res).
+Proof. exact reached_step. Qed.
+Print Assumptions C01_app_reached_step.
+
+Theorem C01_app_reached_no_oversubscription :
+  forall (ns0 : list node) (nl : nlist) (h : list slot),
+    Reached ns0 nl h -> ok_nover ns0 (nl_nodes nl) h = true.
+Proof. exact reached_no_oversubscription. Qed.
+Print Assumptions C01_app_reached_no_oversubscription.
+
+(* the unbounded `while True` of find_slots ends (the model's EHang answer never occurs) *)
+Theorem C01_app_find_slots_terminates :
+  forall (ns0 : list node) (nl : nlist) (h : list slot) (r : rreq) (n : Z) (nl' : nlist) (res : res),
+    Reached ns0 nl h -> rr_ok r -> 0 < r_co r -> find_slots nl r n = (nl', res) -> res <> RErr EHang.
+Proof. exact find_slots_no_hang. Qed.
+Print Assumptions C01_app_find_slots_terminates.
+
+(* REFUTED beyond wf_nodes: with node ids that are not the list positions a release is credited to
+   another node (or raises IndexError), after which the clause fails *)
+Theorem C01_app_permuted_ids_refuted :
+  exists ns0 ops, NoDup (map nd_index ns0) /\ Forall wf_node ns0 /\ Forall op_ok ops /\
+    let tr := run (start_nl ns0 true) ops in
+    all_disciplined [] ops tr = true /\ v_restores (judge ns0 ns0 [] ops tr) = false /\
+    v_nover (judge ns0 ns0 [] ops tr) = false.
+Proof. exact release_with_permuted_ids_refuted. Qed.
+Print Assumptions C01_app_permuted_ids_refuted.
+
+Example C01_app_nonvacuous :
+  let ns0 := [mkNode 0 "localhost" [Some 0; Some 0] [Some 0] (Some 100) (Some 0);
+              mkNode 1 "localhost" [Some 0; None] [Some 0] (Some 100) (Some 0)] in
+  let r := mkRR 1 32 1 32 10 0 false in
+  match run (start_nl ns0 true) [OFind r 2; OFind r 2; OFind r 2] with
+  | [(RSlots a, _); (RSlots b, _); (RNone, nl)] =>
+      List.length a = 2%nat /\ List.length b = 2%nat /\
+      nl_nodes nl = [mkNode 0 "localhost" [Some 64; Some 0] [Some 64] (Some 80) (Some 0);
+                     mkNode 1 "localhost" [Some 64; None] [Some 64] (Some 80) (Some 0)]
+  | _ => False
+  end.
+Proof. vm_compute. auto. Qed.
+
+End AppSide.
